@@ -1,0 +1,27 @@
+//go:build verif
+// +build verif
+
+package core
+
+import (
+	"com.tuntun.rangers/node/src/middleware"
+	"com.tuntun.rangers/node/src/middleware/log"
+	"com.tuntun.rangers/node/src/middleware/notify"
+	"com.tuntun.rangers/node/src/middleware/types"
+)
+
+// VerifC07GameExecutorAdmit drives the two client entry points of GameExecutor that admit a
+// transaction to the pool without executing it: write (ClientTransactionWrite) and the
+// pass-through branch of runWrite (RequestId == 0). Verification harness only.
+func VerifC07GameExecutorAdmit(tx types.Transaction, viaRunWrite bool) {
+	ge := &GameExecutor{logger: log.GetLoggerByIndex(log.GameExecutorLogConfig, "0")}
+	msg := &notify.ClientTransactionMessage{Tx: tx}
+	if viaRunWrite {
+		ge.runWrite(&middleware.Item{Value: msg})
+		return
+	}
+	if len(msg.Tx.SubTransactions) == 0 {
+		msg.Tx.SubTransactions = make([]types.UserData, 1) // write() indexes [0] in its log lines
+	}
+	ge.write(msg)
+}
